@@ -179,80 +179,6 @@ func forall(lo, hi int, f func(int) bool) bool {
 //@   modifies nothing
 //@   ensures result == (s.byteSize >= s.maxSizeBytes)
 
-// ---- SortedMap: a map plus the list of its keys (sorted on demand).
-// Representation invariant smInv: the list holds exactly the keys of the map, once each.
-
-//@ define smInv(sm) := len(sm.list) == len(sm.m) &&
-//@        forall(func(k K) bool { return has(sm.m, k) ==> exists(0, len(sm.list), func(j int) bool { return sm.list[j] == k }) }) &&
-//@        forall(0, len(sm.list), func(i int) bool { return has(sm.m, sm.list[i]) && forall(0, i, func(j int) bool { return sm.list[j] != sm.list[i] }) })
-
-// library: slices.SortFunc(list, cmp.Compare) sorts in place: same elements, ascending.
-//@ func SortedMap.ensureSorted
-//@   property C15 C19
-//@   trusted
-//@   modifies sm.list
-//@   ensures len(sm.list) == old(len(sm.list))
-//@   ensures forall(0, len(sm.list), func(i int) bool { return exists(0, len(sm.list), func(j int) bool { return old(sm.list)[j] == sm.list[i] }) })
-//@   ensures forall(0, len(sm.list), func(i int) bool { return exists(0, len(sm.list), func(j int) bool { return sm.list[j] == old(sm.list)[i] }) })
-//@   ensures forall(0, len(sm.list), func(i int) bool { return forall(0, i, func(j int) bool { return sm.list[j] < sm.list[i] }) }) ||
-//@           !forall(0, old(len(sm.list)), func(i int) bool { return forall(0, i, func(j int) bool { return old(sm.list)[j] != old(sm.list)[i] }) })
-
-//@ func ext:slices.BinarySearch
-//@   trusted
-//@   modifies nothing
-//@   requires forall(0, len(arg0), func(i int) bool { return forall(0, i, func(j int) bool { return arg0[j] < arg0[i] }) })
-//@   ensures result1 == exists(0, len(arg0), func(j int) bool { return arg0[j] == arg1 })
-//@   ensures result1 ==> 0 <= result0 && result0 < len(arg0) && arg0[result0] == arg1
-//@   ensures 0 <= result0 && result0 <= len(arg0)
-
-//@ func SortedMap.Set
-//@   property C15 C19
-//@   requires smInv(sm)
-//@   modifies sm.m, sm.list, sm.isSorted
-//@   ensures smInv(sm)
-//@   ensures result == !has(old(sm.m), k)
-//@   ensures has(sm.m, k) && sm.m[k] == v
-//@   ensures forall(func(x K) bool { return x != k ==> has(sm.m, x) == has(old(sm.m), x) && sm.m[x] == old(sm.m)[x] })
-
-//@ func SortedMap.Has
-//@   property C15 C19
-//@   modifies nothing
-//@   ensures result == has(sm.m, k)
-
-//@ func SortedMap.Get
-//@   property C15 C19
-//@   modifies nothing
-//@   ensures result1 == has(sm.m, k) && (result1 ==> result0 == sm.m[k])
-
-//@ func SortedMap.Size
-//@   property C15 C19
-//@   modifies nothing
-//@   ensures result == len(sm.list)
-
-//@ func SortedMap.Delete
-//@   property C15 C19
-//@   requires smInv(sm)
-//@   modifies sm.m, sm.list
-//@   ensures len(sm.list) == len(sm.m)
-//@   ensures forall(0, len(sm.list), func(i int) bool { return forall(0, i, func(j int) bool { return sm.list[j] != sm.list[i] }) })
-//@   ensures forall(func(x K) bool { return has(sm.m, x) ==> exists(0, len(sm.list), func(j int) bool { return sm.list[j] == x }) })
-//@   ensures forall(0, len(sm.list), func(i int) bool { return has(sm.m, sm.list[i]) })
-//@   ensures result == has(old(sm.m), k)
-//@   ensures !has(sm.m, k)
-//@   ensures forall(func(x K) bool { return x != k ==> has(sm.m, x) == has(old(sm.m), x) && sm.m[x] == old(sm.m)[x] })
-
-// Values: the values in ascending key order, one per key.
-//@ func SortedMap.Values
-//@   property C15 C19
-//@   requires smInv(sm)
-//@   modifies sm.list
-//@   ensures smInv(sm)
-//@   ensures len(result) == len(sm.m)
-//@   ensures forall(0, len(result), func(i int) bool { return has(sm.m, sm.list[i]) && result[i] == sm.m[sm.list[i]] })
-//@   ensures forall(0, len(sm.list), func(i int) bool { return forall(0, i, func(j int) bool { return sm.list[j] < sm.list[i] }) })
-//@   loop 0:
-//@     invariant len(values) == len(sm.list) && forall(0, idx_, func(j int) bool { return values[j] == sm.m[sm.list[j]] })
-
 // ---- Set mutators. setInv: the map holds exactly the elements of the list; no duplicates.
 //@ define setInv(s) := s != nil &&
 //@        forall(func(xx_ T) bool { return has(s.m, xx_) ==> exists(0, len(s.l), func(jj_ int) bool { return s.l[jj_] == xx_ }) }) &&
@@ -309,17 +235,17 @@ func forall(lo, hi int, f func(int) bool) bool {
 
 // ---- SortedMap (C16: the Kinesis split tracker keeps its known shards in one). The map holds
 // the values, the list holds exactly the map's keys, each once; iteration is in key order.
-//@ define smInv(sm) := sm != nil &&
+//@ define smInv(sm) := sm != nil && len(sm.list) == len(sm.m) &&
 //@        forall(func(kk_ K) bool { return has(sm.m, kk_) == exists(0, len(sm.list), func(jj_ int) bool { return sm.list[jj_] == kk_ }) }) &&
 //@        forall(0, len(sm.list), func(ii_ int) bool { return forall(0, ii_, func(jj_ int) bool { return sm.list[jj_] != sm.list[ii_] }) }) &&
 //@        (sm.isSorted ==> forall(0, len(sm.list), func(ii_ int) bool { return forall(0, ii_, func(jj_ int) bool { return cmp.Compare(sm.list[jj_], sm.list[ii_]) <= 0 }) }))
 
 //@ func NewSortedMap
-//@   property C16
+//@   property C16 C15 C19
 //@   ensures fresh(result) && smInv(result) && len(result.list) == 0 && forall(func(k K) bool { return !has(result.m, k) })
 
 //@ func SortedMap.Set
-//@   property C16
+//@   property C16 C15 C19
 //@   requires smInv(sm)
 //@   modifies sm.list, sm.m, sm.isSorted
 //@   ensures smInv(sm) && result == !has(old(sm.m), k)
@@ -327,24 +253,24 @@ func forall(lo, hi int, f func(int) bool) bool {
 //@   ensures same(sm.m[k], v) && forall(func(x K) bool { return x != k ==> same(sm.m[x], old(sm.m)[x]) })
 
 //@ func SortedMap.Get
-//@   property C16
+//@   property C16 C15 C19
 //@   modifies nothing
 //@   ensures result1 == has(sm.m, k) && (result1 ==> same(result0, sm.m[k]))
 
 //@ func SortedMap.Size
-//@   property C16
+//@   property C16 C15 C19
 //@   modifies nothing
 //@   ensures result == len(sm.list)
 
 //@ func SortedMap.ensureSorted
-//@   property C16
+//@   property C16 C15 C19
 //@   requires smInv(sm)
 //@   modifies sm.list
 //@   ensures smInv(sm) && len(sm.list) == old(len(sm.list))
 //@   ensures forall(0, len(sm.list), func(i int) bool { return forall(0, i, func(j int) bool { return cmp.Compare(sm.list[j], sm.list[i]) <= 0 }) })
 
 //@ func SortedMap.Delete
-//@   property C16
+//@   property C16 C15 C19
 //@   requires smInv(sm)
 //@   modifies sm.list, sm.m
 //@   ensures smInv(sm) && result == has(old(sm.m), k)
@@ -352,7 +278,7 @@ func forall(lo, hi int, f func(int) bool) bool {
 //@   ensures forall(func(x K) bool { return x != k ==> same(sm.m[x], old(sm.m)[x]) })
 
 //@ func SortedMap.All
-//@   property C16
+//@   property C16 C15 C19
 //@   requires smInv(sm)
 //@   modifies sm.list
 //@   ensures smInv(sm) && seqlen(result) == len(sm.list)
@@ -360,3 +286,20 @@ func forall(lo, hi int, f func(int) bool) bool {
 //@   ensures forall(0, len(sm.list), func(i int) bool { return forall(0, i, func(j int) bool { return cmp.Compare(sm.list[j], sm.list[i]) < 0 }) })
 //@   loop 0:
 //@     invariant len(out_) == idx_ && len(out2_) == idx_ && forall(0, idx_, func(j int) bool { return out_[j] == sm.list[j] && same(out2_[j], sm.m[sm.list[j]]) })
+
+//@ func SortedMap.Has
+//@   property C16 C15 C19
+//@   modifies nothing
+//@   ensures result == has(sm.m, k)
+
+// Values: the values in ascending key order, one per key.
+//@ func SortedMap.Values
+//@   property C16 C15 C19
+//@   requires smInv(sm)
+//@   modifies sm.list
+//@   ensures smInv(sm)
+//@   ensures len(result) == len(sm.m)
+//@   ensures forall(0, len(result), func(i int) bool { return has(sm.m, sm.list[i]) && same(result[i], sm.m[sm.list[i]]) })
+//@   ensures forall(0, len(sm.list), func(i int) bool { return forall(0, i, func(j int) bool { return cmp.Compare(sm.list[j], sm.list[i]) < 0 }) })
+//@   loop 0:
+//@     invariant len(values) == len(sm.list) && forall(0, idx_, func(j int) bool { return same(values[j], sm.m[sm.list[j]]) })
